@@ -136,3 +136,15 @@ Proof.
   - replace (v / 2 ^ (w - 1)) with 1; [reflexivity|]. apply Z.div_unique with (v - 2 ^ (w - 1)); lia.
   - rewrite Z.div_small by lia. reflexivity.
 Qed.
+
+(* obligations generated for Python `assert` statements in translated methods: the condition must hold for every in-range input *)
+Ltac auto_assert :=
+  intros; cbv zeta beta; unfold py_shl, py_shr, py_truth, b2z in *;
+  repeat rewrite Z.shiftl_1_l in *;
+  repeat match goal with
+         | |- context [2 ^ ?w] => lazymatch goal with
+                                   | _ : 0 < 2 ^ w |- _ => fail
+                                   | _ => assert (0 < 2 ^ w) by (apply Z.pow_pos_nonneg; lia)
+                                   end
+         end;
+  lia.
